@@ -210,7 +210,10 @@ class CGenerator:
         s = self.visit(n.decls[0])
         if len(n.decls) > 1:
             s += ", " + ", ".join(
-                self.visit_Decl(decl, no_type=True) for decl in n.decls[1:]
+                self.visit_Decl(decl, no_type=True)
+                if isinstance(decl, c_ast.Decl)
+                else self._generate_type(decl.type, emit_base=False)
+                for decl in n.decls[1:]
             )
         return s
 
